@@ -57,13 +57,13 @@ TEXT = {
   "note": "ApplyForURL only against a loopback httptest server; pages come from the DocModel/PagerModel grammars.", "ref": "DESIGN.md 4/C10",
  },
  "C11": {
-  "technique": "stateful property-based testing (rapid): repeated runs and generated call histories over document/option pools; oracle = every result equals the first result of its (document, options) pair; differential between Apply, ApplyForReader and ApplyForFile; metamorphic renaming invariance against state kept from earlier calls; differential between fresh processes for state left by the first call of a process",
+  "technique": "stateful property-based testing (rapid): repeated runs and generated call histories over document/option pools; oracle = every result equals the first result of its (document, options) pair; differential between Apply on the harness's reference parse, ApplyForReader and ApplyForFile (valid UTF-8 documents; documents in a legacy encoding are compared between runs only); metamorphic renaming invariance against state kept from earlier calls; differential between fresh processes for state left by the first call of a process",
   "level": "Exploration: hundreds to thousands of pools per run, each pair executed >=8 times plus an interleaved history; map-iteration orders are sampled by repetition.",
   "note": "A two-way map-order choice escapes one evaluation with probability 2^-7 at worst; there is no control over the runtime's map iteration order.", "ref": "DESIGN.md 4/C11",
  },
  "C12": {
   "technique": "property-based testing (rapid) of generated concurrent workloads under the Go race detector; oracle = no race report and each concurrent result equals its sequential result",
-  "level": "Exploration: tens to thousands of generated workloads per run with heavy sharing of trees, Options and URLs under a -race build; schedules are sampled.",
+  "level": "Exploration: tens to thousands of generated workloads per run with heavy sharing of trees, Options and URLs under a -race build, Apply on shared trees mixed with ApplyForReader on shared bytes (incl. bytes in a legacy encoding); schedules are sampled.",
   "note": "Happens-before race detection reports a conflicting pair whenever both accesses execute in a run; defects that need a specific interleaving without a data race are out of reach.", "ref": "DESIGN.md 4/C12",
  },
  "C13": {
@@ -73,7 +73,7 @@ TEXT = {
  },
  "C16": {
   "technique": "property-based testing (rapid): generated pagers mixing pattern links with placeholder, off-site, look-alike, userinfo, other-scheme and malformed anchors; oracle = validity predicate on PaginationInfo (http(s), same host, target of a document anchor); thorough tier adds coverage-guided go fuzzing of the generator's bit-stream (rapid.MakeFuzz, same oracle)",
-  "level": "Exploration: tens of thousands of generated pagers per run over 7 URL families and both algorithms.",
+  "level": "Exploration: tens of thousands of generated pagers per run over 10 URL families and both algorithms; hrefs carry no percent-escapes (DESIGN 6.2).",
   "note": "Anchor targets are resolved by the harness with net/url; page URLs are http(s).", "ref": "DESIGN.md 4/C16",
  },
  "C17": {
@@ -84,16 +84,16 @@ TEXT = {
  "C14": {
   "technique": "property-based testing (rapid): structured markup specifications rendered as a full page and three single-source pages; oracles = metamorphic precedence fold of the single-source results plus by-construction reference for OpenGraph qualification, opt-out and per-source pins; thorough tier adds coverage-guided go fuzzing of the generator's bit-stream (rapid.MakeFuzz, same oracle)",
   "level": "Exploration: thousands of generated specifications per run (four pages each) over present/absent/partial OpenGraph, schema.org and IE Reading View markup in drawn interleavings.",
-  "note": "The fold oracle trusts that the three sources do not read each other's markup (the renderings are built so); og:type precedes type-dependent OpenGraph properties.", "ref": "DESIGN.md 4/C14",
+  "note": "The fold oracle trusts that the three sources do not read each other's markup (the renderings are built so); og:type stands anywhere among the OpenGraph properties; property spellings are the ones the parsers document (lower-case prefixes, http://schema.org types).", "ref": "DESIGN.md 4/C14",
  },
  "C15": {
   "technique": "property-based testing (rapid): <title> strings from a grammar with headings and markup titles; oracle = membership of Title in {markup title, contiguous part of <title>, first h1}, exactness clause, and a control/treatment pair for title repetition; thorough tier adds coverage-guided go fuzzing of the generator's bit-stream (rapid.MakeFuzz, same oracle)",
-  "level": "Exploration: thousands of generated titles per run over lengths, 13 separators, hierarchy forms, h1/h2 relations and markup titles; the repetition clause is decided by a metamorphic pair that differs in one word.",
-  "note": "Title words are unique tokens; IE_RM_OFF with a markup title is outside the generated domain.", "ref": "DESIGN.md 4/C15",
+  "level": "Exploration: thousands of generated titles per run over lengths, 15 separators, hierarchy forms, h1/h2 relations and markup titles; the repetition clause is decided by a metamorphic pair that differs in one word.",
+  "note": "Title words are unique tokens; headings are generated without the library's line-break marker and without punctuation-leading words after white space (InnerText limitation, DESIGN 6.2).", "ref": "DESIGN.md 4/C15",
  },
  "C18": {
   "technique": "exhaustive enumeration of rule-relevant table feature vectors against a decision list written from the property text (reference model), plus placement invariance and an API-level sample",
-  "level": "Exploration, exhaustive over the 1,512,000-vector product in the thorough tier (quick: a seed-rotated 1/16 residue class), 4 placements per vector.",
+  "level": "Exploration, exhaustive over the 5,832,000-vector product in the thorough tier (quick: a seed-rotated hash slice), 6 placements per vector.",
   "note": "Features are computed from the parsed table by their definition; the internal classifier verdict is the observation point the property names.", "ref": "DESIGN.md 4/C18",
  },
  "C19": {
